@@ -3601,3 +3601,98 @@ func ruleVMergeSpellings(c *eng.Ctx) {
 	okS := !consts[""] || consts["continue"]
 	c.Check(okS, R, eng.FuncName(fn)+"#vMerge", fn.Pos(), "both spellings of continue are recognised", "w:vMerge's val is compared with \"\" but not with \"continue\": a continuation cell written with the explicit value is taken for a cell of its own and ends the merge above it")
 }
+
+// ---------------------------------------------------------------------------------------------------------------
+// R17.14 a cell value written into a delimited line cannot break the line or add a field.
+
+// mentionsLineBreak: the function (with its same-package helpers, depth 1) handles the constant "\n" (or '\n').
+func mentionsLineBreak(fn *ssa.Function) bool {
+	found := false
+	for _, h := range eng.Cluster(fn, 1) {
+		if h.Pkg != fn.Pkg {
+			continue
+		}
+		eng.Instrs(h, true, func(in ssa.Instruction) {
+			for _, op := range in.Operands(nil) {
+				if op == nil || *op == nil {
+					continue
+				}
+				if s, ok := eng.ConstString(*op); ok && strings.Contains(s, "\n") {
+					found = true
+				}
+				if k, ok := eng.ConstInt(*op); ok && k == '\n' {
+					found = true
+				}
+			}
+		})
+	}
+	return found
+}
+
+// R17.14 [C17]
+func ruleDelimitedFieldSanitised(c *eng.Ctx) {
+	const R = "R17.14-DELIMITED-FIELD-SANITISED"
+	c.Rule(R, "in xlsx.(*Reader).TextWithOptions a cell's Value reaches the delimited output only through a function that deals with line breaks (a replacer, strings.Map, or a helper of the package that handles \"\\n\"): the output is one line per row and one field per column, a cell edited with Alt+Enter contains a line feed, and written as it is that value starts a new line and moves every later row down by one", 1, 0)
+	fn := c.P.Func("xlsx.(*Reader).TextWithOptions")
+	if fn == nil {
+		c.Undec(R, "xlsx.(*Reader).TextWithOptions", token.NoPos, "anchor not found")
+		return
+	}
+	n := 0
+	for _, h := range eng.Cluster(fn, 1) {
+		if h.Pkg != fn.Pkg {
+			continue
+		}
+		eng.Instrs(h, true, func(in ssa.Instruction) {
+			ci, ok := in.(ssa.CallInstruction)
+			if !ok {
+				return
+			}
+			name := eng.CalleeName(ci)
+			if !strings.HasSuffix(name, ").WriteString") && !strings.HasSuffix(name, ").Write") && name != "fmt.Fprintf" && name != "fmt.Fprint" {
+				return
+			}
+			args := eng.ArgsWithRecv(ci)
+			for _, a := range args[1:] {
+				fromValue, sanitised := false, false
+				for w := range eng.Slice(a, func(*ssa.Call) bool { return true }) {
+					var st *types.Struct
+					fi := -1
+					var nm string
+					switch x := w.(type) {
+					case *ssa.FieldAddr:
+						if pt, ok := x.X.Type().Underlying().(*types.Pointer); ok {
+							st, _ = pt.Elem().Underlying().(*types.Struct)
+							nm = eng.TypeName(pt.Elem())
+							fi = x.Field
+						}
+					case *ssa.Field:
+						st, _ = x.X.Type().Underlying().(*types.Struct)
+						nm = eng.TypeName(x.X.Type())
+						fi = x.Field
+					case *ssa.Call:
+						switch cn := eng.CalleeName(x); cn {
+						case "strings.ReplaceAll", "strings.Replace", "strings.Map", "(*strings.Replacer).Replace", "strings.(*Replacer).Replace", "strings.Fields", "strings.Join":
+							sanitised = true
+						default:
+							if cal := eng.StaticCallee(x); cal != nil && eng.InModule(cal) && mentionsLineBreak(cal) {
+								sanitised = true
+							}
+						}
+					}
+					if st != nil && strings.HasSuffix(nm, "xlsx.Cell") && st.Field(fi).Name() == "Value" {
+						fromValue = true
+					}
+				}
+				if !fromValue {
+					continue
+				}
+				n++
+				c.Check(sanitised, R, fmt.Sprintf("%s#value@%s", eng.FuncName(in.Parent()), c.P.Pos(ci.Pos())), ci.Pos(), "the value passes a function that handles line breaks", "the cell value is written into the delimited output as it is: a line feed inside a cell starts a new output line, a delimiter inside it adds a field, and every later cell is no longer at line r, field c")
+			}
+		})
+	}
+	if n == 0 {
+		c.Ok(R, eng.FuncName(fn)+"#value", fn.Pos(), "not evaluated: no write of Cell.Value found in the function or its helpers")
+	}
+}
